@@ -14,7 +14,7 @@ theorem toUint_small (n : Nat) (h : n < 2 ^ 64) : toUint (n : Int) = n := by
   unfold toUint; rw [U_val]; omega
 
 theorem ensureScroll_interp (hs : List Nat) (s : St) (hc : s.cursor < 2 ^ 64) (f : Nat) :
-    exec hs DynSkelExpected.ensureScroll (f + 4) DynSkelExpected.ensureScroll s [] =
+    exec hs DynSkelExpected.ensureScroll (f + 5) DynSkelExpected.ensureScroll s [] =
       some ⟨DynList.ensureScroll s, [], if s.cursor > s.top then some false else Option.none⟩ := by
   have hU : toUint (s.cursor : Int) = s.cursor := toUint_small _ hc
   unfold DynList.ensureScroll
@@ -33,7 +33,7 @@ theorem ensureScroll_run (hs : List Nat) (s : St) (hc : s.cursor < 2 ^ 64) (p : 
 theorem setCursor_interp (hs : List Nat) (s : St) (c : Nat) (hc : c < 2 ^ 63) :
     (runMethod hs DynSkelExpected.ensureScroll DynSkelExpected.setCursor s c).map (·.st) = some (DynList.setCursor s c) := by
   have hU : toUint (c : Int) = c := toUint_small _ (by omega)
-  have he := ensureScroll_interp hs { s with cursor := c } (by show c < 2 ^ 64; omega) 26
+  have he := ensureScroll_interp hs { s with cursor := c } (by show c < 2 ^ 64; omega) 25
   unfold DynList.setCursor
   simp only [runMethod]
   simp [exec, DynSkelExpected.setCursor, evalI, lookup, store, hU] at he ⊢
@@ -51,7 +51,7 @@ theorem nextItem_interp (hs : List Nat) (s : St) (hc : s.cursor < 2 ^ 63) :
     have := toUint_small (s.cursor + 1) (by omega)
     simpa using this
   have hua : uadd s.cursor 1 = s.cursor + 1 := by unfold uadd U; omega
-  have he := ensureScroll_interp hs { s with cursor := s.cursor + 1 } (by show s.cursor + 1 < 2 ^ 64; omega) 24
+  have he := ensureScroll_interp hs { s with cursor := s.cursor + 1 } (by show s.cursor + 1 < 2 ^ 64; omega) 23
   unfold DynList.nextItem
   rw [hua]
   cases hb : builder hs (s.cursor + 1) with
@@ -73,7 +73,7 @@ theorem prevItem_interp (hs : List Nat) (s : St) (hc : s.cursor < 2 ^ 63) :
       rw [← this]; congr 1; omega
     have hus : usub s.cursor 1 = s.cursor - 1 := by unfold usub U; omega
     have hne : ¬ ((s.cursor : Int) = 0) := by omega
-    have he := ensureScroll_interp hs { s with cursor := s.cursor - 1 } (by show s.cursor - 1 < 2 ^ 64; omega) 23
+    have he := ensureScroll_interp hs { s with cursor := s.cursor - 1 } (by show s.cursor - 1 < 2 ^ 64; omega) 22
     rw [if_neg h0, hus]
     cases hb : builder hs (s.cursor - 1) with
     | none =>
